@@ -1,8 +1,9 @@
 \* exhaustive (thorough): histories of <= 2 cycles x 0..2 burn steps from every start point, two stacks, coupling off / on, all single failures
 CONSTANTS MaxCyc = 2  MaxBurn = 2  Tights = {FALSE, TRUE}  WithStarts = TRUE  MaxLevel = 400
+CONSTANTS RestartFrom = {"completed", "aborted"}  Phase2Fails = TRUE
 CONSTANT Configs <- NoConfigs
 INIT RInit
-NEXT RNext
+NEXT RNextR
 CONSTRAINT Bound
 INVARIANT RTypeOK
 INVARIANT AbortedRunLeavesFile
@@ -11,6 +12,9 @@ INVARIANT CompletedRunIsSuccessful
 INVARIANT FinalisedFileIsComplete
 INVARIANT SnapshotsHoldStateAtWrite
 INVARIANT MarkAndPlace
+INVARIANT RestartHoldsWholeHistory
+INVARIANT MergedUnchanged
+INVARIANT RestartIsInit
 INVARIANT RunningFileHoldsWrittenNodes
 INVARIANT ScheduleIsNestedLoop
 INVARIANT DispatchExactlyActiveInOrder
